@@ -102,6 +102,8 @@ def grid_specs():
         "split_server_flight": {"split_shs": 3, "hs_coalesce": False},
         "key_updates": {"steps": [data(0, 40), data(1, 300), {"op": "ku", "d": 0}, data(0, 41), {"op": "ku", "d": 1}, data(1, 301), data(0, 42),
                                   {"op": "ku", "d": 1}, data(1, 302), {"op": "ku", "d": 0}, data(0, 43), data(1, 303)]},
+        "cid_switch_mixed_varint_widths": {"steps": [data(0, 40), data(1, 300), {"op": "ncid", "d": 1, "len": 8, "w": 2, "w2": 1}, {"op": "ncid", "d": 0, "len": 5, "w": 4, "w2": 2}, data(0, 41),
+                                 {"op": "usecid", "d": 0, "i": 0}, data(0, 42), {"op": "usecid", "d": 1, "i": 0}, data(1, 301), data(1, 302), data(0, 43)]},
         "cid_switch": {"steps": [data(0, 40), data(1, 300), {"op": "ncid", "d": 1, "len": 8}, {"op": "ncid", "d": 0, "len": 5}, data(0, 41),
                                  {"op": "usecid", "d": 0, "i": 0}, data(0, 42), {"op": "usecid", "d": 1, "i": 0}, data(1, 301), data(1, 302), data(0, 43)]},
         "pn_gaps": {"steps": [data(0, 40, 3), data(1, 300, 200), data(0, 41, 70000), data(1, 301, 5000000), data(1, 302, 1, 4), data(0, 42, 0, 3)]},
